@@ -16,6 +16,9 @@ NeedsRex(r) == r.f = "g" /\ ((r.w = 8 /\ ~r.h /\ r.n >= 4) \/ r.n >= 8 \/ r.w = 
 Legal(rs)   == ~(\E a \in rs, b \in rs : a.h /\ NeedsRex(b))
 Pairs(w)    == {<<a, b>> : a \in Regs(w), b \in Regs(w)}
 CL == G(8, 1)
+Xr(n) == RegRec("x", 128, n, FALSE)
+Yr(n) == RegRec("y", 256, n, FALSE)
+MMr(n) == RegRec("m", 64, n, FALSE)
 
 (* ------------------------------ immediates ------------------------------ *)
 B8(a, b, c, d, e, f, g, h) == <<a, b, c, d, e, f, g, h>>
@@ -130,6 +133,34 @@ C02_Class(m) ==
 \cup { L2("bzhi", <<G(w, 1), W(m, w, ""), G(w, 10)>>) : w \in {32, 64} }
 \cup { L2("mulx", <<G(w, 1), G(w, 10), W(m, w, "")>>) : w \in {32, 64} }
 \cup { L2("rorx", <<G(w, 9), W(m, w, ""), ImHex(5)>>) : w \in {32, 64} }
+\* further width / register-class variants of the memory-taking forms (slice C02h)
+NoRexMem(m) == m.b < 8 /\ m.i < 8
+C02_Class2(m) ==
+     { L2(mn, <<G(w, 11), W(m, w, "")>>) : mn \in {"xchg", "cmovb", "imul", "and", "cmp"}, w \in {16, 32} }
+\cup { L2("xchg", <<G(8, 6), W(m, 8, "")>>), L2("xchg", <<G(64, 0), W(m, 64, "")>>), L2("xchg", <<G(32, 0), W(m, 32, "")>>) }
+\cup { L2("test", <<W(m, w, ""), G(w, 12)>>) : w \in {8, 16, 64} }
+\cup { L2(mn, <<W(m, w, ""), G(w, 0)>>) : mn \in {"or", "sbb", "mov"}, w \in {8, 16, 32, 64} }
+\cup { L2("movzx", <<G(32, 9), W(m, 16, "word")>>), L2("movzx", <<G(64, 1), W(m, 8, "byte")>>), L2("movzx", <<G(16, 9), W(m, 8, "byte")>>) }
+\cup { L2("adcx", <<G(32, 9), W(m, 32, "")>>), L2("adox", <<G(64, 1), W(m, 64, "")>>) }
+\cup { L2(mn, <<W(m, w, KW(w)), ImHex(v)>>) : mn \in {"shl", "shr", "sal", "sar", "rcr"}, w \in {16, 32}, v \in {1, 31} }
+\cup { L2(mn, <<W(m, w, KW(w)), CL>>) : mn \in {"shl", "sar", "sal"}, w \in {8, 16, 64} }
+\cup { L2(mn, <<W(m, w, KW(w)), Im(FALSE, <<120,86,0,0,0,0,0,0>>, "hex", 0)>>) : mn \in {"adc", "xor", "sub", "mov", "test"}, w \in {16, 32, 64} }
+\cup { L2(mn, <<W(m, w, KW(w)), Im(TRUE, <<1,0,0,0,0,0,0,0>>, "hex", 0)>>) : mn \in {"or", "cmp", "mov"}, w \in {8, 16, 32, 64} }
+\cup { L2("imul", <<G(w, 9), W(m, w, ""), Im(TRUE, <<16,0,0,0,0,0,0,0>>, "hex", 0)>>) : w \in {16, 32} }
+\cup { L2(mn, <<W(m, 8, "byte")>>) : mn \in Setccs }
+\cup { L2("lea", <<G(w, 12), W(m, 0, "")>>) : w \in {16, 32} }
+\cup (IF NoRexMem(m) THEN
+        { L2(mn, <<H(h), W(m, 8, "")>>) : mn \in {"mov", "add", "xchg", "cmp"}, h \in {4, 7} }
+   \cup { L2(mn, <<W(m, 8, ""), H(h)>>) : mn \in {"mov", "xor", "test"}, h \in {5, 6} }
+   \cup { L2("movzx", <<G(32, 1), W(m, 8, "byte")>>) }
+      ELSE {})
+\cup { L2(mn, <<Xr(a), W(m, 128, "")>>) : mn \in {"paddq", "pmuldq"}, a \in {0, 15} }
+\cup { L2(mn, <<MMr(a), W(m, 64, "")>>) : mn \in {"psubw", "por", "pmulhrsw"}, a \in {0, 7} }
+\cup { L2(mn, <<Yr(a), Yr(b), W(m, 256, "")>>) : mn \in {"vaddpd", "vpand", "vpmuldq", "vpsubq"}, a \in {0, 15}, b \in {7, 8} }
+\cup { L2(mn, <<Xr(a), Xr(b), W(m, 128, "")>>) : mn \in {"vpaddw", "vpmulhrsw", "vpor"}, a \in {0, 15}, b \in {7, 8} }
+\cup { L2(mn, <<G(w, 15), W(m, w, ""), G(w, 0)>>) : mn \in {"bextr", "sarx", "shlx", "shrx"}, w \in {32, 64} }
+\cup { L2("vperm2f128", <<Yr(15), Yr(0), W(m, 256, ""), ImHex(49)>>) }
+C02_Cls2(sel(_)) == UNION {C02_Class2(m) : m \in {x \in ShapesRed : sel(x)}}
 C02_Cls(sel(_)) == UNION {C02_Class(m) : m \in {x \in ShapesRed : sel(x)}}
 
 (* ================================ C03 =================================== *)
@@ -171,9 +202,6 @@ CorpusC03(zz) == { [prop |-> y.prop, status |-> y.status, ast |-> y.ast,
 
 (* ================================ C04 =================================== *)
 L4(mn, opds) == Rec("C04", "Supported", mn, opds)
-Xr(n) == RegRec("x", 128, n, FALSE)
-Yr(n) == RegRec("y", 256, n, FALSE)
-MMr(n) == RegRec("m", 64, n, FALSE)
 Corner == {0, 7, 8, 15}
 VFull == {"vpaddb", "vpmulld", "vpxor"}            \* one per (map, W) row class gets the full product
 C04_Mmx(zz) == { L4(mn, <<MMr(a), MMr(b)>>) : mn \in Packed16 \cup {"pand"}, a \in 0..7, b \in 0..7 }
@@ -357,6 +385,9 @@ Selected == CASE IOEnv.CORPUS = "C01" -> CorpusC01(0)
               [] IOEnv.CORPUS = "C02e" -> C02_Cls(LAMBDA m : m.a = 64 /\ m.b >= 5 /\ m.b < 12)
               [] IOEnv.CORPUS = "C02f" -> C02_Cls(LAMBDA m : m.a = 64 /\ m.b >= 12)
               [] IOEnv.CORPUS = "C02g" -> C02_Cls(LAMBDA m : m.a = 32)
+              [] IOEnv.CORPUS = "C02h" -> C02_Cls2(LAMBDA m : m.a = 64 /\ m.b < 9)
+              [] IOEnv.CORPUS = "C02i" -> C02_Cls2(LAMBDA m : m.a = 64 /\ m.b >= 9)
+              [] IOEnv.CORPUS = "C02j" -> C02_Cls2(LAMBDA m : m.a = 32)
               [] IOEnv.CORPUS = "C03" -> CorpusC03(0)
               [] IOEnv.CORPUS = "C04a" -> C04_Mmx(0) \cup C04_Sse(0) \cup C04_Mov(0) \cup C04_VMov(0)
               [] IOEnv.CORPUS = "C04b" -> C04_VexRest(0) \cup C04_Bmi(FALSE)
